@@ -8,19 +8,20 @@ From Lime Require Import Base.Res Hs.Types Hs.Server Hs.Monitor Corr.HsServer Co
    build (Corr/Builder.v) *)
 Inductive case := KScript (c : scase) | KB (b : bcase)
 (* a peer that sends one session envelope and vanishes at once (see Corr/HsChecks.v): no session may come of it *)
-| KAbrupt (kind : tkind) (first : cses) (est_cb fin_cb : nat) (ended : bool).
+| KAbrupt (kind : tkind) (first : cses) (est_cb fin_cb : nat) (ended : bool)
+          (peer_saw_end : bool).   (* the peer, where it waited for it, saw the connection end (true where it did not wait) *)
 Definition check (c : case) : bool :=
   match c with
   | KScript s => c03_check s
   | KB b => check_c03 b
-  | KAbrupt _ _ est _ _ => Nat.eqb est 0
+  | KAbrupt _ _ est _ _ saw => Nat.eqb est 0 && saw
   end.
 Definition agrees (c : case) : bool :=
   match c with
   | KScript c => evs_eqb (c03_proj (k_obs c)) (c03_proj (model_obs c))
   | KB b => agrees_c03 b
-  | KAbrupt k first est fin ended =>
-      match abrupt_model k first with (e, f, d) => Nat.eqb est e && Nat.eqb fin f && Bool.eqb ended d end
+  | KAbrupt k first est fin ended saw =>
+      match abrupt_model k first with (e, f, d) => Nat.eqb est e && Nat.eqb fin f && Bool.eqb ended d && saw end
   end.
 Definition mismatches (cs : list case) : list nat := bad_indices agrees cs.
 Definition violations (cs : list case) : list nat := bad_indices check cs.
